@@ -3,6 +3,7 @@ CONSTANTS
   L = 4
   FixPred = FALSE
   FixLeave = FALSE
+  FixWrap = FALSE
   MaxTry = 2
   MCLayout <- LayR4
   InitMembers = {1, 3, 4}
@@ -11,6 +12,7 @@ CONSTANTS
   MaxOps = 0
   Faults = FALSE
   OpKinds = {}
+  MaxMembers = 0
   B = 3
   FixSelf = TRUE
 INVARIANTS InvTerminates InvLookupCorrect
